@@ -368,6 +368,20 @@ type recPlan struct {
 	Faults   bool         `json:"faults"`
 	MaxDisp  int          `json:"maxdisp"`
 	LateDups int          `json:"latedups,omitempty"` // copies of packets that arrive around or beyond the reorder window after the original
+	// the recorder is slow for a while (its disk, say): the call of Write
+	// for packet I of track T (0 audio, 1 video) only begins Ms later.  The
+	// server's writer queue overflows meanwhile; what the recorder missed
+	// is in the packet cache, or no longer.
+	Stalls []recStall `json:"stalls,omitempty"`
+	// an outage: packets From..From+Len-1 of the (only) audio track never
+	// reach the server
+	Outage [2]int `json:"outage,omitempty"`
+}
+
+type recStall struct {
+	T  int `json:"t"`
+	I  int `json:"i"`
+	Ms int `json:"ms"`
 }
 
 func recStartSeq(tp *simrt.Tape) uint16 {
@@ -504,6 +518,7 @@ func genRecPlan0(tp *simrt.Tape, seed uint64, tier string) *recPlan {
 	p.UptimeS = []int{31, 0, 3600}[tp.Weighted(3, 1, 1)]
 	p.Faults = !tp.Chance(1, 3)
 	lossP, dupP, reoP, lateDupP := 0, 0, 0, 0
+	stallOn := false
 	tailHole := false
 	if p.Faults {
 		lossP = []int{0, 0, 1, 3}[tp.Draw(4)]
@@ -514,6 +529,15 @@ func genRecPlan0(tp *simrt.Tape, seed uint64, tier string) *recPlan {
 		// the reorder window (a duplicating network path with a long queue)
 		if tp.Chance(1, 4) {
 			lateDupP = []int{5, 20}[tp.Draw(2)]
+		}
+		stallOn = tp.Chance(1, 4)
+		if kind == 2 && tp.Chance(1, 5) {
+			// audio only, with an outage longer than anything the recorder
+			// bridges (512 packets and more); losses and stalls after it
+			from := 20 + tp.Draw(40)
+			p.Outage = [2]int{from, 520 + tp.Draw(80)}
+			p.Audio.Frames = from + p.Outage[1] + 60 + tp.Draw(80)
+			stallOn = true
 		}
 	}
 	var all []recEmit
@@ -533,7 +557,19 @@ func genRecPlan0(tp *simrt.Tape, seed uint64, tier string) *recPlan {
 		if tailHole && tp.Chance(1, 2) && len(pkts) > 3 {
 			hole = len(pkts) - 1 - tp.Draw(minInt2(12, len(pkts)-1))
 		}
+		if stallOn && len(pkts) > 4 {
+			for n := 1 + tp.Draw(2); n > 0; n-- {
+				at := tp.Draw(len(pkts))
+				if p.Outage[1] > 0 && t == 0 {
+					at = p.Outage[0] + p.Outage[1] + tp.Draw(len(pkts)-p.Outage[0]-p.Outage[1])
+				}
+				p.Stalls = append(p.Stalls, recStall{T: t, I: at, Ms: []int{150, 400, 1000, 2500}[tp.Draw(4)]})
+			}
+		}
 		for i := range pkts {
+			if p.Outage[1] > 0 && t == 0 && i >= p.Outage[0] && i < p.Outage[0]+p.Outage[1] {
+				continue
+			}
 			k := 0
 			for _, h := range held {
 				if h.due <= i {
@@ -678,6 +714,11 @@ func shrinkRec(plan any) []any {
 			}
 			out = append(out, q)
 		}
+	}
+	for i := range p.Stalls {
+		q := cp()
+		q.Stalls = append(append([]recStall{}, p.Stalls[:i]...), p.Stalls[i+1:]...)
+		out = append(out, q)
 	}
 	// fewer events (never the first record)
 	for i := range p.Events {
@@ -892,25 +933,26 @@ type recFile struct {
 }
 
 type recWorld struct {
-	c        *Ctx
-	p        *recPlan
-	g        *group.Group
-	up       *rtpconn.VerifUp
-	trk      [2]*recTrack
-	dir      string
-	client   *diskwriter.Client
-	sessions []*recSession
-	cur      *recSession
-	byDisk   map[*diskwriter.VerifTrack]*recSessTrack
-	byConn   map[*diskwriter.VerifConn]*recSession
-	inflight map[string][]*recWrite
-	files    map[string]*recFile
-	t0       time.Time     // start of the stream (publisher's capture clock 0)
-	t0sim    time.Duration // the same on the run's clock
-	maxDelay int64         // largest (arrival - capture) so far, microseconds
-	srSent   int
-	gone     bool // the publisher has left
-	failed   bool
+	c         *Ctx
+	p         *recPlan
+	g         *group.Group
+	up        *rtpconn.VerifUp
+	trk       [2]*recTrack
+	dir       string
+	client    *diskwriter.Client
+	sessions  []*recSession
+	cur       *recSession
+	byDisk    map[*diskwriter.VerifTrack]*recSessTrack
+	byConn    map[*diskwriter.VerifConn]*recSession
+	inflight  map[string][]*recWrite
+	files     map[string]*recFile
+	t0        time.Time     // start of the stream (publisher's capture clock 0)
+	t0sim     time.Duration // the same on the run's clock
+	maxDelay  int64         // largest (arrival - capture) so far, microseconds
+	srSent    int
+	stallUsed map[int]bool
+	gone      bool // the publisher has left
+	failed    bool
 }
 
 var recDebug = os.Getenv("VERIF_C20_DEBUG") != ""
@@ -1146,6 +1188,22 @@ func (w *recWorld) installProbes() {
 		task := simrt.CurrentTaskID()
 		if enter {
 			buf, _ := args[1].([]byte)
+			if len(w.p.Stalls) > 0 {
+				idx := st.trk.idxOf(buf)
+				for si, sl := range w.p.Stalls {
+					if sl.T == st.trk.kind && sl.I == idx && !w.stallUsed[si] && sl.Ms > 0 {
+						if w.stallUsed == nil {
+							w.stallUsed = map[int]bool{}
+						}
+						w.stallUsed[si] = true
+						w.c.Count("fault.recorder_stall", 1)
+						// what reaches the recorder from now on is late by up to that much
+						w.maxDelay += int64(sl.Ms) * 1000
+						w.dbg("recorder stalls for %d ms before %s pkt %d", sl.Ms, st.trk.name(), idx)
+						simrt.Sleep(time.Duration(sl.Ms)*time.Millisecond, "rec.stall")
+					}
+				}
+			}
 			wr := &recWrite{idx: st.trk.idxOf(buf), enter: w.c.Stamp(), at: w.c.Run.Now()}
 			if recDebug {
 				fr := -1
